@@ -149,6 +149,12 @@ CallFailed(props, cfg, S, e) ==
   \cup Chk(props, "C15", "C15.Size", inf2[5] = Size(mem2))
   \cup Chk(props, "C15", "C15.Maxsize", inf2[4] = maxs)
   \cup Chk(props, "C20", "C20.Independent", others)
+  \* a restored copy answers, evaluates and counts exactly as the model of the original does from the same state
+  \cup Chk(props, "C20", "C20.CopyBehavesLikeOriginal", S.g[i].copy =>
+             /\ e.exc = "none" /\ e.ret = val
+             /\ e.ev = (IF class = "miss" THEN <<a>> ELSE <<>>)
+             /\ <<inf2[1], inf2[2], inf2[3]>> = <<inf[1] + u[1], inf[2] + u[2], inf[3] + u[3]>>
+             /\ inf2[5] = Size(mem2) /\ bound)
   \cup Chk(props, "C18", "C18.StoredUnderKey", mem2[cfg.nk] = 0 /\ \A x \in 1..cfg.na : e.archs[x][cfg.nk] = 0)
   ELSE IF class = "raise" THEN
        Chk(props, "C16", "C16.SameException", e.exc = "same" /\ e.ret = 0)
@@ -315,7 +321,7 @@ GhostAfter(cfg, S, e) ==
      \* that is bound NOW (entries that were only in the archive bound before are legitimately out of reach)
      [S.g EXCEPT ![i] = [g EXCEPT !.parked = 0, !.kept = IF e.cur[i] # 0 THEN Dom(e.mem[i]) ELSE {}]]
   ELSE IF e.op = "clone" THEN
-     [S.g EXCEPT ![e.j] = g]
+     [S.g EXCEPT ![e.j] = [g EXCEPT !.copy = TRUE]]
   ELSE IF e.op \in {"lookup", "key"} THEN
      [S.g EXCEPT ![i] = [g EXCEPT !.peeked = TRUE]]
   ELSE IF e.op = "decorate" THEN
@@ -325,7 +331,7 @@ GhostAfter(cfg, S, e) ==
 Ghost0(cfg) == [i \in 1..cfg.ni |->
                  [last |-> EmptyMap(cfg.nk), uses |-> EmptyMap(cfg.nk), clock |-> 0,
                   taint |-> FALSE, parked |-> 0, kept |-> {},
-                  raised |-> FALSE, peeked |-> FALSE]]
+                  raised |-> FALSE, peeked |-> FALSE, copy |-> FALSE]]
 
 Adopt(cfg, S, e) == [mem |-> e.mem, archs |-> e.archs, cur |-> e.cur, info |-> e.info,
                      g |-> GhostAfter(cfg, S, e)]
